@@ -105,6 +105,9 @@ func cellKey(al *ssa.Alloc) string {
 // addrKey returns the location class written by a store to addr ("" =
 // unknown, kills everything) and whether it is a local cell.
 func (c *Ctx) addrKey(addr ssa.Value) string {
+	if k := localKey(addr); k != "" {
+		return k
+	}
 	switch a := addr.(type) {
 	case *ssa.FieldAddr:
 		return fieldKey(a)
@@ -162,6 +165,26 @@ func (c *Ctx) instrWrites(in ssa.Instruction) *wset {
 			w.all = true
 		} else {
 			w.add(k)
+			// a field store also changes the enclosing local struct cell, and a
+			// whole-struct store changes every field of the struct
+			switch a := x.Addr.(type) {
+			case *ssa.FieldAddr:
+				for base := a.X; ; {
+					if fa, ok := base.(*ssa.FieldAddr); ok {
+						w.add(fieldKey(fa))
+						base = fa.X
+						continue
+					}
+					if bk := c.addrKey(base); bk != "" {
+						if _, isF := base.(*ssa.FieldAddr); !isF {
+							w.add(bk)
+						}
+					}
+					break
+				}
+			case *ssa.Alloc, *ssa.FreeVar, *ssa.Global, *ssa.IndexAddr:
+				addStructFields(w, derefType(x.Addr.Type()), 0)
+			}
 		}
 	case *ssa.MapUpdate:
 		w.add(mapKey(x.Map.Type()))
@@ -309,11 +332,33 @@ func (f *Fn) solve() {
 			w := f.c.instrWrites(ins)
 			id := fmt.Sprintf("i%d.%d", b.Index, i)
 			if w.all {
-				st = map[string]string{"*": id}
+				ns := map[string]string{"*": id}
+				for k, v := range st {
+					if strings.HasPrefix(k, "L:") {
+						ns[k] = v
+					}
+				}
+				st = ns
 				continue
 			}
 			for k := range w.keys {
 				st[k] = id
+				if strings.HasPrefix(k, "L:") {
+					// children of the written location and its enclosing cells change too
+					for k2 := range st {
+						if strings.HasPrefix(k2, k+".") {
+							st[k2] = id
+						}
+					}
+					for p := k; ; {
+						i := strings.LastIndex(p, ".")
+						if i < 0 || !strings.Contains(p[:i], ".") {
+							break
+						}
+						p = p[:i]
+						st[p] = id
+					}
+				}
 			}
 		}
 		return st
@@ -373,6 +418,20 @@ func (f *Fn) solve() {
 func stateGet(m map[string]string, k string) string {
 	if v, ok := m[k]; ok {
 		return v
+	}
+	if strings.HasPrefix(k, "L:") {
+		// a field of a local cell: fall back to the enclosing cell's version
+		for p := k; ; {
+			i := strings.LastIndex(p, ".")
+			if i < 0 || !strings.Contains(p[:i], ".") {
+				break
+			}
+			p = p[:i]
+			if v, ok := m[p]; ok {
+				return v
+			}
+		}
+		return "0"
 	}
 	if v, ok := m["*"]; ok {
 		return v
@@ -778,4 +837,100 @@ func writesOwnAllocation(in ssa.Instruction) bool {
 		}
 	}
 	return false
+}
+
+func derefType(t types.Type) types.Type {
+	if p, ok := t.Underlying().(*types.Pointer); ok {
+		return p.Elem()
+	}
+	return t
+}
+
+// addStructFields adds the field location classes of struct type t (nested
+// struct fields included) to w.
+func addStructFields(w *wset, t types.Type, depth int) {
+	st, ok := t.Underlying().(*types.Struct)
+	if !ok || depth > 3 {
+		return
+	}
+	owner := ssau.NamedOf(t)
+	for i := 0; i < st.NumFields(); i++ {
+		w.add("f:" + owner + "." + st.Field(i).Name())
+		addStructFields(w, st.Field(i).Type(), depth+1)
+	}
+}
+
+// ---------------------------------------------------------------------------
+// non-escaping local cells
+
+var escCache = map[*ssa.Alloc]bool{}
+
+// nonEscaping reports whether the address of a local cell is used only for
+// direct loads, stores and field/element selection in its own function: no
+// call, closure or store can then reach it, so only stores written in the
+// function itself change it.
+func nonEscaping(al *ssa.Alloc) bool {
+	if v, ok := escCache[al]; ok {
+		return v
+	}
+	ok := true
+	var visit func(addr ssa.Value, d int)
+	visit = func(addr ssa.Value, d int) {
+		refs := addr.Referrers()
+		if refs == nil || d > 6 {
+			ok = false
+			return
+		}
+		for _, ref := range *refs {
+			switch u := ref.(type) {
+			case *ssa.UnOp:
+				if u.Op != token.MUL {
+					ok = false
+				}
+			case *ssa.Store:
+				if u.Addr != addr {
+					ok = false
+				}
+			case *ssa.FieldAddr:
+				if u.X == addr {
+					visit(u, d+1)
+				} else {
+					ok = false
+				}
+			case *ssa.IndexAddr:
+				if _, isArr := derefType(addr.Type()).Underlying().(*types.Array); isArr && u.X == addr {
+					visit(u, d+1)
+				} else {
+					ok = false
+				}
+			case *ssa.DebugRef:
+			default:
+				ok = false
+			}
+		}
+	}
+	visit(al, 0)
+	escCache[al] = ok
+	return ok
+}
+
+// localKey returns the cell-specific location class of an address rooted at a
+// non-escaping local cell: "L:<cell>" or "L:<cell>.<field path>"; "" otherwise.
+func localKey(addr ssa.Value) string {
+	path := ""
+	for i := 0; i < 8; i++ {
+		switch a := addr.(type) {
+		case *ssa.Alloc:
+			if !nonEscaping(a) {
+				return ""
+			}
+			return "L:" + a.Parent().String() + "." + a.Name() + path
+		case *ssa.FieldAddr:
+			path = "." + ssau.FieldName(a) + path
+			addr = a.X
+		default:
+			return ""
+		}
+	}
+	return ""
 }
